@@ -18,6 +18,8 @@ MC_CFG = ("INIT Init\nNEXT Next\nINVARIANT VisitedIsPath\nINVARIANT NoResidue\nI
 class Faults:
     inv = 0
     fault = 0
+    hit = None        # nid of the object whose printer invocation was made to fail
+    always = None     # nid whose printer fails at EVERY invocation (reference renderings)
     exc = ValueError
     msg = 'boom'
 
@@ -50,7 +52,10 @@ class MyError(Exception):
 def pretty_u(value, ctx):
     Faults.inv += 1
     if Faults.inv == Faults.fault:
+        Faults.hit = value.nid
         raise Faults.exc(Faults.msg)
+    if Faults.always == value.nid:
+        raise ValueError('reference rendering')
     return P.pretty_call(ctx, U, *value.kids)
 
 
@@ -58,7 +63,10 @@ def pretty_u(value, ctx):
 def pretty_v(value, ctx, trailing_comment=None):
     Faults.inv += 1
     if Faults.inv == Faults.fault:
+        Faults.hit = value.nid
         raise Faults.exc(Faults.msg)
+    if Faults.always == value.nid:
+        raise ValueError('reference rendering')
     return P.pretty_call(ctx, U, *value.kids)
 
 
@@ -473,8 +481,9 @@ def check_c14(chk, args):
                 meta[cid] = m
                 chk.nontrivial((repr(g), fault, exc.__name__))
     nv, nd, st = run_cases(chk, cases, meta, 'C14')
-    non_doc_scenarios(chk)
     chk.cov['evaluations'] = len(cases) * 2
+    non_doc_scenarios(chk)
+    commented_scenarios(chk)
     chk.cov['traces_validated_against_impl'] = len(cases)
     chk.cov['rule'] = ('trees / DAGs (<= 6 nodes) of instrumented user objects printed with pretty_call, nested in lists and '
                        'dicts, with and without trailing_comment wrappers, printers that do / do not accept '
@@ -485,6 +494,101 @@ def check_c14(chk, args):
         m = meta[c['id']]
         chk.sample({'graph': m['graph'], 'fault': m['fault'], 'exception': m['exception'], 'output': m['out'][:200]})
     chk.stage('tlc.validate', executions=len(cases), rejected=nv, drift=nd, states=st['distinct'])
+
+
+def _u(nid, *kids, cls=None):
+    o = (cls or U)(nid)
+    o.kids = list(kids)
+    return o
+
+
+def commented_structures():
+    """Instrumented objects under comment() / trailing_comment() in every kind of parent. A commented dict value is
+    rendered up to twice (the second rendering is made lazily, inside the layout algorithm), so 'each printer
+    invocation in turn' includes invocations that happen after the value-to-document pass."""
+    c, tc = P.comment, P.trailing_comment
+    long = 'a comment that is rather long and will not fit next to the value'
+    return {
+        'dict-value': lambda: {'k': c(_u(1, _u(2)), long), 'z': _u(3)},
+        'dict-value-short': lambda: {'k': c(_u(1), 'c'), 'z': c(_u(2, 7), 'd')},
+        'dict-value-nested': lambda: {'a': c({'b': c(_u(1, _u(2)), 'deep ' + long)}, 'outer'), 'z': _u(3)},
+        'dict-value-accepting': lambda: {'k': c(_u(1, _u(2, cls=V), cls=V), long)},
+        'dict-value-trailing': lambda: {'k': tc(_u(1, _u(2), cls=V), 'tc'), 'j': tc(_u(3), 'tc2')},
+        'dict-key': lambda: {c('key', 'kc'): _u(1), 'other': [c(_u(2), long)]},
+        'list-items': lambda: [c(_u(1), 'first'), _u(2, c(_u(3), 'inner ' + long)), c([_u(4)], 'a list')],
+        'tuple-items': lambda: (c(_u(1, 5), long), _u(2)),
+        'call-args': lambda: _u(1, c(_u(2), 'arg comment'), _u(3, c(6, 'leaf'))),
+        'call-args-trailing': lambda: _u(1, tc([_u(2), _u(3)], 'tc ' + long), cls=V),
+        'top-comment': lambda: c(_u(1, {'k': c(_u(2), long)}), 'top'),
+    }
+
+
+def commented_scenarios(chk):
+    q = chk.tier == 'quick'
+    n = nf = 0
+    for name, mk in commented_structures().items():
+        for width in (1, 30, 79, 200):
+            v = mk()
+
+            def render(fault=0, exc=ValueError, always=None):
+                Faults.inv, Faults.fault, Faults.exc, Faults.hit, Faults.always = 0, fault, exc, None, always
+                Faults.msg = MESSAGES[(fault + width) % len(MESSAGES)] if fault else 'boom'
+                try:
+                    with warnings.catch_warnings(record=True) as wl:
+                        warnings.simplefilter('always')
+                        with common.time_limit(20):
+                            out = P.pformat(v, width=width)
+                finally:
+                    ninv, hit = Faults.inv, Faults.hit
+                    Faults.inv, Faults.fault, Faults.always, Faults.hit = 0, 0, None, None
+                return out, [str(w.message) for w in wl if 'raised an exception' in str(w.message)], ninv, hit
+            desc0 = {'structure': name, 'width': width}
+            try:
+                base, w0, ninv, _ = render()
+            except (Exception, common.Timeout) as e:  # noqa
+                chk.violation('C14.baseline', 'fault-free print of commented structure %s raised %r' % (name, e), desc0)
+                continue
+            if w0:
+                chk.violation('C14.baseline', 'fault-free print of %s warns %r' % (name, w0), desc0)
+                continue
+            refs = {}
+            excs = EXCS if not q else [ValueError, TypeError, KeyError]
+            for fault in range(1, ninv + 1):
+                for exc in (excs if not q else [excs[(fault + width) % len(excs)], TypeError]):
+                    n += 1
+                    desc = dict(desc0, fault=fault, exception=exc.__name__, baseline=base)
+                    try:
+                        out, wl, _, hit = render(fault, exc)
+                    except (Exception, common.Timeout) as e:  # noqa
+                        chk.violation('C14.contained', 'invocation #%d raising %s under a comment escaped from pformat as %r '
+                                      '(%s, width %d)' % (fault, exc.__name__, e, name, width), desc)
+                        continue
+                    desc['output'] = out
+                    if hit is None:
+                        continue          # fewer invocations this time: nothing was injected
+                    nf += 1
+                    if hit not in refs:
+                        refs[hit] = render(always=hit)[0]
+                    if not wl:
+                        chk.violation('C14.warning', 'invocation #%d (object %d) raised %s but NO UserWarning naming the '
+                                      'printer was issued: %s width=%d output=%r' % (fault, hit, exc.__name__, name, width,
+                                                                                     out), desc)
+                    elif not all('pretty_u' in m or 'pretty_v' in m for m in wl):
+                        chk.violation('C14.warning', 'the warning does not name the failing printer: %r' % (wl,), desc)
+                    if out != base and out != refs[hit]:
+                        chk.violation('C14.others-unchanged', 'with invocation #%d (object %d) failing the output is neither '
+                                      'the fault-free text nor that text with object %d rendered as its repr: %r'
+                                      % (fault, hit, hit, out), dict(desc, reference=refs[hit]))
+                    try:
+                        again = render()[0]
+                    except (Exception, common.Timeout) as e:  # noqa
+                        again = repr(e)
+                    if again != base:
+                        chk.violation('C14.later-calls', 'a fault-free print after the failure differs from the baseline: %r'
+                                      % (again,), desc)
+                    chk.nontrivial(('commented', name, width, fault, exc.__name__))
+    chk.cov['evaluations'] += n
+    chk.stage('commented', executions=n, faults_injected=nf)
 
 
 class NonDoc:
